@@ -286,6 +286,95 @@ def exec (cfg : Cfg) (s : St) (ops : List Op) : St := ops.foldl (step1 cfg) s
 def init (cfg : Cfg) : St :=
   { struct := cfg.members.map (fun m => (m, 0)), mem := cfg.members.map (fun m => (m, 0)) }
 
+/-! ### overlapping operations (several threads; repaired code: the guard counter `insideRW` is kept per thread)
+
+Every `announceUpdate` runs under `updateLock`, callbacks included; every read_/write_ wrapper runs under `accessLock`.
+So at most one wrapped access is in progress at a time, and what can get in between its steps are the driver-side
+assignments of other threads (`self.<struct> = d`, `self.<member> = x`: `updateLock` only), each a complete update with all
+its callbacks.  The callbacks of such an assignment consult the guard counter of THEIR thread (0), not the one of the thread
+inside the access, so they are not suppressed.  Reads of the cache outside `updateLock` (a member without `read_<m>` in the
+loop of the generated `read_<struct>`) may see a state in the middle of another thread's update: an oracle (`seen`).
+-/
+
+/-- what another thread does while an access is in progress -/
+inductive AOp
+  | assignStruct (v : Dict)
+  | assignMember (m : String) (v : Val)
+  deriving Repr, DecidableEq, Inhabited
+
+def astep (cfg : Cfg) (s : St) : AOp → St
+  | .assignStruct v => assignStruct cfg v s
+  | .assignMember m v => if cfg.members.contains m then announceMember cfg m v s else s
+
+def interrupt (cfg : Cfg) (ops : List AOp) (s : St) : St := ops.foldl (astep cfg) s
+
+/-- where the assignments of other threads fall during one generated `read_<struct>` / `write_<struct>` of the per-member
+layout (every position between two acquisitions of `updateLock` by the accessing thread) -/
+structure Overlap where
+  before : String → List AOp := fun _ => []   -- before member `m` is treated (before its update; for a member without `read_<m>`: before its cache read)
+  seen : String → Option Val := fun _ => none -- what the cache read of a member without `read_<m>` sees (`none`: the state the model has reached)
+  atEnd : List AOp := []                      -- after the loop, before `finally` reads the struct / before the result is announced
+  afterRead : List AOp := []                  -- between `getattr(self, <struct>)` in `finally` and the update with the merged value
+  beforeErr : List AOp := []                  -- before the read wrapper announces the error
+
+def readIterO (cfg : Cfg) (r : String → RRes Val) (ov : Overlap) (l : Loop) (m : String) : Loop :=
+  if l.stop then l else
+  let s1 := interrupt cfg (ov.before m) l.st
+  if cfg.hasR m then
+    match r m with
+    | .fail k => { l with st := memberError m s1, stop := true, exc := some k }
+    | .ok x => { l with st := announceMemberIn cfg m x s1, result := l.result ++ [(m, x)] }
+  else
+    match (ov.seen m).orElse (fun _ => s1.mem.lookup m) with
+    | none => { l with st := s1, stop := true }
+    | some x => { l with st := s1, result := l.result ++ [(m, x)] }
+
+def writeIterO (cfg : Cfg) (v : Dict) (w : String → WRes Val) (ov : Overlap) (l : Loop) (m : String) : Loop :=
+  if l.stop then l else
+  let s1 := interrupt cfg (ov.before m) l.st
+  match v.lookup m with
+  | none => { l with st := s1, stop := true }
+  | some req =>
+    if cfg.hasW m then
+      match w m with
+      | .fail k => { l with st := s1, stop := true, exc := some k }
+      | .retNone => { l with st := announceMemberIn cfg m req s1, result := l.result ++ [(m, req)] }
+      | .ret x => { l with st := announceMemberIn cfg m x s1, result := l.result ++ [(m, x)] }
+    else { l with st := announceMemberIn cfg m req s1, result := l.result ++ [(m, req)] }
+
+def finishLoopO (cfg : Cfg) (isRead : Bool) (ov : Overlap) (l : Loop) : St :=
+  let s1 := interrupt cfg ov.atEnd l.st
+  let s2 := interrupt cfg ov.afterRead s1
+  if l.result.length < cfg.members.length then
+    failedExc l.exc (loopError isRead (interrupt cfg ov.beforeErr (assignStruct cfg (Dict.merge s1.struct l.result) s2)))
+  else if wf cfg l.result then fine (announceStruct cfg l.result s2)
+  else failed (loopError isRead (interrupt cfg ov.beforeErr s2))
+
+def readStructO (cfg : Cfg) (r : String → RRes Val) (ov : Overlap) (s : St) : St :=
+  finishLoopO cfg true ov (cfg.members.foldl (readIterO cfg r ov) { st := s })
+
+def writeStructO (cfg : Cfg) (v : Dict) (w : String → WRes Val) (ov : Overlap) (s : St) : St :=
+  if !wf cfg v then failed s else
+  finishLoopO cfg false ov (cfg.members.foldl (writeIterO cfg v w ov) { st := s })
+
+/-- histories in which accesses to the whole struct overlap with assignments of other threads -/
+inductive OOp
+  | seq (op : Op)                                                                   -- an operation nothing gets into
+  | readStructO (rA : RRes Dict) (rB : String → RRes Val) (ov : Overlap)
+  | writeStructO (v : Dict) (wA : WRes Dict) (wB : String → WRes Val) (ov : Overlap)
+
+/-- in the combined layout `read_<struct>` / `write_<struct>` are one update: whatever other threads do comes before it -/
+def ostep (cfg : Cfg) (s : St) : OOp → St
+  | .seq op => step cfg s op
+  | .readStructO rA rB ov =>
+    if cfg.combined then readStructC cfg rA (interrupt cfg (ov.atEnd ++ ov.afterRead) s) else readStructO cfg rB ov s
+  | .writeStructO v wA wB ov =>
+    if cfg.combined then writeStructC cfg v wA (interrupt cfg (ov.atEnd ++ ov.afterRead) s) else writeStructO cfg v wB ov s
+
+def ostep1 (cfg : Cfg) (s : St) (op : OOp) : St := ostep cfg { s with evs := [], exc := none } op
+def orun (cfg : Cfg) (s : St) (ops : List OOp) : List St := Frappy.Scan.scan (ostep1 cfg) s ops
+def oexec (cfg : Cfg) (s : St) (ops : List OOp) : St := ops.foldl (ostep1 cfg) s
+
 /-! ## FloatEnumParam (extparams.py:178-310)
 
     write_<name>(value):  write_<idx>(min(vdict, key=lambda i: abs(vdict[i] - value))); return getattr(mobj, name)
